@@ -245,7 +245,13 @@ pub fn gen_history(rng: &mut Rng, p: &Profile) -> Seq {
             }
             3 => Op::Inc(key(rng)),
             4 => Op::Len,
-            5 => Op::Empty,
+            5 => {
+                if rng.chance(1, 3) {
+                    Op::IsDirty
+                } else {
+                    Op::Empty
+                }
+            }
             6 => Op::Iter(rng.below(7) as u8),
             7 => Op::Stats,
             8 => match rng.below(5) {
